@@ -309,9 +309,9 @@ theorem eos_prefix (pre base : Str) (hp : DirPrefix pre) (hb : 47 ∉ base) :
 open Moto.Tape in
 /-- **the tape descriptor (name, extension, kind, mode) of a source does not depend on its directory
     part; the path opened is the path given** (minus the option) -/
-theorem classify_prefix (pre base : Str) (hp : DirPrefix pre) (hb : 47 ∉ base) :
-    (classify (pre ++ base)).1 = (classify base).1 ∧ (classify (pre ++ base)).2 = pre ++ (classify base).2 := by
-  unfold classify
+theorem classifyRaw_prefix (pre base : Str) (hp : DirPrefix pre) (hb : 47 ∉ base) :
+    (classifyRaw (pre ++ base)).1 = (classifyRaw base).1 ∧ (classifyRaw (pre ++ base)).2 = pre ++ (classifyRaw base).2 := by
+  unfold classifyRaw
   dsimp only
   rw [dotPos_prefix pre base hp hb]
   cases hd : rfindFrom 46 base (afterLast 47 base) with
@@ -350,5 +350,14 @@ theorem classify_prefix (pre base : Str) (hp : DirPrefix pre) (hb : 47 ∉ base)
       · split
         · exact ⟨rfl, rfl⟩
         · exact ⟨rfl, rfl⟩
+
+open Moto.Tape in
+theorem classify_prefix (pre base : Str) (hp : DirPrefix pre) (hb : 47 ∉ base) :
+    (classify (pre ++ base)).1 = (classify base).1 ∧ (classify (pre ++ base)).2 = pre ++ (classify base).2 := by
+  obtain ⟨h1, h2⟩ := classifyRaw_prefix pre base hp hb
+  unfold classify
+  dsimp only
+  rw [h1, h2]
+  exact ⟨rfl, rfl⟩
 
 end Moto
